@@ -226,6 +226,19 @@ func (g *histGen) genPolicy(prev *PolicySpec) PolicySpec {
 		}
 		sp := g.pickSubset(ids, 1, 2)
 		sub.Rules = append(sub.Rules, RuleSpec{Name: "sub-main", Patterns: []string{"git:refs/heads/main"}, Principals: sp, Threshold: 1})
+		if r.Chance(35) {
+			// the delegated file declares a person under an id the primary rule file already uses,
+			// with another key: that definition must only matter where the delegated file is consulted
+			for _, ps := range file.Principals {
+				if ps.Person {
+					other := kDevFirst + r.Intn(kDevLast-kDevFirst+1)
+					if other != ps.Keys[0] {
+						sub.Principals = append(sub.Principals, PrincipalSpec{ID: ps.ID, Person: true, Keys: []int{other}, Identities: ps.Identities})
+					}
+					break
+				}
+			}
+		}
 		p.Files = append(p.Files, sub)
 	}
 	return p
